@@ -10,6 +10,7 @@ From Helm Require Import Engine.Types Engine.Eff Engine.Ops Engine.OpsFix Engine
                          Engine.Conc Engine.ConcProofs Engine.ConcLocal Engine.ConcProofsB
                          Engine.ConcRG Engine.ConcRGProgs Engine.ConcPrune Engine.ConcC09 Engine.ConcGenC09
                          Engine.ConcStart Engine.ConcMix Engine.ConcPruneB.
+From Helm Require Import Engine.DryRun Engine.DryOps Engine.ConcCrds.
 From Helm Require Import Gen.PendingC09.
 Import ListNotations.
 
@@ -473,3 +474,35 @@ Theorem C09_pruning_deletes_deployed_refuted :
   /\ map (fun r => (rev r, st r)) (c_led (snd res)) = [(1, SSuperseded); (3, SDeployed)].
 Proof. exact pruning_deletes_deployed_refuted. Qed.
 Print Assumptions C09_pruning_deletes_deployed_refuted.
+
+(* ================================================================== *)
+(* Round 5: the name check precedes the CRD pre-install step and the namespace creation.  Over the
+   richer model of install ([DryOps.x_install], C06's transcription of Install.RunWithContext with
+   crds/ creation + wait + cache invalidation and --create-namespace in it): for every configuration,
+   every option set that is not a dry run and every chart, install is
+   [IsReachable unless ClientOnly] ; History ; ... and a history that refuses the name ends it at
+   once with "cannot reuse a name that is still in use" — a refused install has sent nothing. *)
+Theorem C09_name_check_precedes_crds :
+  forall rn ns g fl c,
+    is_dry_run (fb fl "DryRun") (xf_opt fl) = false -> fb fl "HideSecret" = false ->
+    exists k : list release -> xprog xoutcome,
+      x_install rn ns g fl c
+      = (if fb fl "ClientOnly" then XEff (XE TReal SHistory) k
+         else XEff XReach (fun r => if negb r then XRet xerr else XEff (XE TReal SHistory) k))
+      /\ forall h,
+           (exists last, max_rev_of h = Some last
+              /\ fb fl "Replace" && (status_eqb (st last) SUninstalled || status_eqb (st last) SFailed) = false) ->
+           k h = XRet (XO (OErr ENameInUse)).
+Proof. exact x_install_name_check_first. Qed.
+Print Assumptions C09_name_check_precedes_crds.
+
+(* ... whereas an install that PASSES the name check creates the CRDs and the namespace before its
+   revision record exists (two mutating requests before the first SCreate): the loser of the create
+   race may have sent them — counted by the harness as "pre-calls", an observation. *)
+Example C09_crds_precede_the_create :
+  let pre := before_create 60 happy (x_install "rel" "default" (mkXG true true) x_crd_flags x_crd_chart) in
+  existsb is_crd_create pre = true /\ existsb is_ns_create pre = true
+  /\ List.length (filter x_cluster_mut pre) = 2
+  /\ name_refused x_crd_flags [mkRelease 1 SDeployed 1 1 [] []].
+Proof. exact x_install_crds_before_create. Qed.
+Print Assumptions C09_crds_precede_the_create.
